@@ -11,6 +11,8 @@
 #include <functional>
 #include <csignal>
 #include <csetjmp>
+#include <unistd.h>
+#include <sys/wait.h>
 
 namespace vh
 {
@@ -157,6 +159,16 @@ namespace vh
     else rc = 2;
     sigaction(SIGSEGV, &old1, nullptr); sigaction(SIGBUS, &old2, nullptr);
     return rc;
+  }
+  // probe f in a forked child (heap corruption / glibc aborts cannot be survived in-process): 0 = returned, 1 = FEAT abort, 2 = killed by a signal
+  template<typename F> int survives(F f)
+  {
+    fflush(stdout); fflush(stderr);
+    pid_t pid = fork();
+    if(pid == 0) { int rc = 0; try { f(); } catch(const FeatAbort&) { rc = 1; } catch(const std::exception&) { rc = 1; } _exit(rc); }
+    int st = 0; waitpid(pid, &st, 0);
+    if(WIFEXITED(st)) return WEXITSTATUS(st) == 0 ? 0 : 1;
+    return 2;
   }
   // run f, report whether the FEAT abort stub was reached
   template<typename F> bool aborted(F f) { try { f(); } catch(const FeatAbort&) { return true; } catch(const std::exception&) { return true; } return false; }
